@@ -247,7 +247,25 @@ func boundFlow(g *seqCFG, init int64, IC, IL string) []bstate {
 	in := make([]bstate, len(g.ops)+1)
 	in[0] = bstate{reached: true, avail: init, rel: map[string]int64{}}
 	work := []int{0}
-	for len(work) > 0 {
+	seeded := false
+	for len(work) > 0 || !seeded {
+		if len(work) == 0 {
+			// labels reached only through indirect jumps (jump tables, saved return
+			// addresses): enter them knowing nothing
+			seeded = true
+			for i, o := range g.ops {
+				if o.Kind == "Link" && !in[i].reached {
+					in[i] = bstate{reached: true, avail: 0, rel: map[string]int64{}}
+					work = append(work, i)
+					seeded = false
+				}
+			}
+			if seeded {
+				break
+			}
+			seeded = false
+			continue
+		}
 		i := work[len(work)-1]
 		work = work[:len(work)-1]
 		if i >= len(g.ops) || !in[i].reached {
